@@ -9,7 +9,7 @@
 From Coq Require Import List NArith ZArith Bool Sorted Permutation.
 Import ListNotations.
 From SV Require Fmt.CmdSeq Fmt.CmdSeqProofs Fmt.ScenesImage Fmt.ScenesImageProofs Fmt.ScenesImageCfg Fmt.ScenesImageCfgProofs
-  Fmt.SmdTpl Fmt.SmdTplProofs Fmt.SmdWords Fmt.TextFields Fmt.TextFieldsProofs Fmt.SndStacks Fmt.SndStacksProofs Fmt.VmtQuote Fmt.VmtQuoteProofs Fmt.TextLines Fmt.TextLinesProofs Fmt.ChoreoBin Fmt.ChoreoBinProofs Fmt.SceneSummary Fmt.BspDedup Fmt.C20KeyTables Fmt.C20KeyTablesProofs Fmt.SmdNumber Fmt.SmdNumberProofs Fmt.ChoreoQuant Fmt.C20PropertyProofs KV.KvBase KV.KvLex KV.KvSym KV.KvLexProofs.
+  Fmt.SmdTpl Fmt.SmdTplProofs Fmt.SmdWords Fmt.TextFields Fmt.TextFieldsProofs Fmt.SndStacks Fmt.SndStacksProofs Fmt.VmtQuote Fmt.VmtQuoteProofs Fmt.TextLines Fmt.TextLinesProofs Fmt.ChoreoBin Fmt.ChoreoBinProofs Fmt.SceneSummary Fmt.BspDedup Fmt.C20KeyTables Fmt.C20KeyTablesProofs Fmt.SmdNumber Fmt.SmdNumberProofs Fmt.ChoreoQuant Fmt.C20Property Fmt.C20PropertyProofs KV.KvBase KV.KvLex KV.KvSym KV.KvLexProofs.
 
 (** * Command sequences *)
 Module CS := Fmt.CmdSeq.
@@ -567,3 +567,68 @@ Theorem c20_property_partial :
      exists perm, Permutation perm bs /\ SN.read_nodes [] ls = Some (map SN.bone_rec perm)) /\
   (forall name adm fields k, In (name, adm, fields, k) ts -> DD.key_determines adm fields k = true).
 Proof. exact Fmt.C20PropertyProofs.property_partial. Qed.
+
+(** * The property with ONE hypothesis (round 5).  [P.gen_objects] is the record of everything the seven translators regenerate from
+    today's source (cmdseq configuration, scenes.image configuration, soundscript version-2 test and stack blocks, keyed tables of the
+    writers, quantisation sites, VMT quoting table, the structured lines of the soundscript and choreo text writers, the SMD lines);
+    [P.premises] is the conjunction of the named booleans.  The check discharges [P.premises] for the record built from the Gen files
+    on every run (obligation [c20_property_premises_hold_for_the_objects_regenerated_from_todays_source]); nothing else is assumed
+    about the source.  What remains trusted is what gives the objects their meaning: the translators, the hand models behind
+    [CS.write] / [SC.img_save_s] / [CB.enc] / [SK.export] / [SN.number] / [VQ.vmt_file] / [TL.render] / [SW.render] (each compared with the
+    implementation on every run) and the tokenizer model of C01.  Compared with [c20_property_partial] it adds: the pool the
+    scenes.image writer builds, independence of caller order, sortedness of the stored table, second generation of binary layouts and
+    of soundscript stacks, independence of lazy reads, VMT files, all structured text lines, all SMD lines. *)
+Module P := Fmt.C20Property.
+Theorem c20_property :
+  forall g : P.gen_objects, P.premises g = true ->
+  (* command sequences: written, read back equal, second generation identical *)
+  (forall v, CS.repr_okb (P.g_cmdseq g) v = true -> exists b, CS.write (P.g_cmdseq g) v = Some b /\ CS.parse (P.g_cmdseq g) b = Some v /\
+     forall v', CS.parse (P.g_cmdseq g) b = Some v' -> CS.write (P.g_cmdseq g) v' = Some b) /\
+  (* scenes.image: read back equal, table sorted by checksum, for both input forms and any dict keys *)
+  (forall is_dict version pool kes, SC.image_ok_w version pool (map snd kes) ->
+     exists b ps, SC.img_save_g (P.g_image g) is_dict version pool kes = Some b /\
+       SI.img_parse b = Some (version, pool, ps) /\ ps = map (SI.to_pentry version pool) (SI.sort_by_crc (map snd kes)) /\
+       StronglySorted N.le (map SI.p_crc ps)) /\
+  (* ... with the string pool the writer builds itself, every sound comes back as its string *)
+  (forall is_dict version pool0 kes, let pool := SC.pool_g (P.g_image g) is_dict pool0 kes in
+     SC.image_ok_w version pool (map (SC.resolve pool) (map snd kes)) ->
+     exists b, SC.img_save_s (P.g_image g) is_dict version pool0 kes = Some b /\
+       SI.img_parse b = Some (version, pool, map (SC.to_pentry_s version) (SC.sort_by SC.s_crc (map snd kes)))) /\
+  (* ... and equal images give identical files *)
+  (forall d1 d2 version pool0 kes1 kes2, Permutation (map snd kes1) (map snd kes2) -> NoDup (map SC.s_crc (map snd kes1)) ->
+     SC.img_save_s (P.g_image g) d1 version pool0 kes1 = SC.img_save_s (P.g_image g) d2 version pool0 kes2) /\
+  (* binary scenes: every layout decodes what it encoded, the second generation is identical, every stored quantised field is stable *)
+  (forall l env v b r, CB.enc l env v = Some b -> CB.dec l env (b ++ r) = Some (v, r)) /\
+  (forall l env v b v' r, CB.enc l env v = Some b -> CB.dec l env (b ++ r) = Some (v', r) -> CB.enc l env v' = Some b) /\
+  (forall s, In s (P.g_quant g) -> forall k, (0 <= k <= CQ.q_max s)%Z -> CQ.quant s (CQ.dequant s k) = Some k) /\
+  (* soundscript operator stacks: the value comes back, identically the second time, whatever lazy property was read before *)
+  (forall (A : Type) (x : SK.sound A), SK.same_value (SK.parse (fst (SK.export (P.g_snd_guard g) (P.g_snd_blocks g) x))) x /\
+     fst (SK.export (P.g_snd_guard g) (P.g_snd_blocks g) (SK.parse (fst (SK.export (P.g_snd_guard g) (P.g_snd_blocks g) x))))
+       = fst (SK.export (P.g_snd_guard g) (P.g_snd_blocks g) x) /\
+     forall ts, fst (SK.export (P.g_snd_guard g) (P.g_snd_blocks g) (SK.touches ts x)) = fst (SK.export (P.g_snd_guard g) (P.g_snd_blocks g) x)) /\
+  (* SMD: the nodes section reads back as the bones; every writer table has a key that determines what the reader identifies *)
+  (forall bs ls, NoDup (map SN.bkey bs) -> SN.number bs = Some ls ->
+     exists perm, Permutation perm bs /\ SN.read_nodes [] ls = Some (map SN.bone_rec perm)) /\
+  (forall name adm fields k, In (name, adm, fields, k) (P.g_tables g) -> DD.key_determines adm fields k = true) /\
+  (* SMD: every other written line splits at whitespace into exactly its fields; the bone line is read back by the reader's pattern *)
+  (forall l, In l (P.g_smd_lines g) ->
+     (SW.delim true l = true /\ forall ps, map fst ps = l -> SW.values_wordy ps = true -> SW.words (SW.render ps) = SW.fields ps) \/
+     (SW.nodes_line_shape l = true /\ forall a b idx nm par, l = [ST.ConvInt; ST.Lit a; ST.ConvStr; ST.Lit b; ST.ConvInt] ->
+        SW.all_digits idx = true -> forallb (fun c => negb (c =? 34)%N) nm = true -> SW.int_text par = true ->
+        SW.parse_nodes (SW.render [(ST.ConvInt, idx); (ST.Lit a, []); (ST.ConvStr, nm); (ST.Lit b, []); (ST.ConvInt, par)])
+        = Some (idx, nm, par))) /\
+  (* VMT (parameter-only materials): the file is read as shader, brace, the pairs in order, brace; the file determines the material *)
+  (forall E shader ps, VQP.shader_ok shader = true -> VQP.params_ok (P.g_vmt_nq g) ps = true ->
+     KvLex.lex_all E (VQ.vmt_file (P.g_vmt_nq g) shader ps) = (VQ.vmt_tokens shader ps, None)) /\
+  (forall s1 p1 s2 p2, VQP.shader_ok s1 = true -> VQP.params_ok (P.g_vmt_nq g) p1 = true -> VQP.shader_ok s2 = true ->
+     VQP.params_ok (P.g_vmt_nq g) p2 = true -> VQ.vmt_file (P.g_vmt_nq g) s1 p1 = VQ.vmt_file (P.g_vmt_nq g) s2 p2 -> s1 = s2 /\ p1 = p2) /\
+  (* soundscripts and text scenes: every structured line the writers can emit is lexed back as its keywords and field values *)
+  (forall E ind its vs l, KvSym.esc_ok E = true -> KvSym.ws_only ind = true -> In its (P.g_snd_lines g ++ P.g_cho_lines g) ->
+     TL.vals_ok its vs = true -> KvLexProofs.lexes E l (TL.render E ind its vs) (TL.toks its vs) (TL.lines its l)).
+Proof. exact Fmt.C20PropertyProofs.property. Qed.
+
+(** the premise is satisfiable (a record of the shape generated for the pinned tree) and rejects the classes of the seeded faults:
+    table ordered by the dict keys (c20_1, 3, 5, 7), version-2 test by presence of a lazy stack (c20_4, 8), bones compared through
+    casefold (c20_6) *)
+Theorem c20_property_premises_satisfiable : P.premises Fmt.C20PropertyProofs.pinned_objects = true.
+Proof. exact Fmt.C20PropertyProofs.premises_satisfiable. Qed.
